@@ -40,21 +40,24 @@ ObsUnits ==
          /\ Chk("unit_state", o.state = utable[i].state) /\ Chk("unit_category", o.cat = utable[i].cat)
          /\ Chk("unit_reporting", o.reporting = utable[i].reporting) /\ Chk("unit_votes", o.votes = utable[i].votes)
     ELSE Chk("unit_row_absent", ~o.present)
-ObsGroups ==
+HasRowD(l, g) == \E k \in 1..Len(Obs.tables[l]) : Obs.tables[l][k].key = g
+RowForD(l, g) == Obs.tables[l][CHOOSE k \in 1..Len(Obs.tables[l]) : Obs.tables[l][k].key = g]
+ObsGroups ==   \* rows matched by key (the order of the rows is not part of the property)
   Done => \A l \in Levels :
     /\ Chk("group_count", Len(Obs.tables[l]) = Len(tables[l].rows))
-    /\ \A k \in 1..Len(tables[l].rows) : k <= Len(Obs.tables[l]) =>
-         LET g == tables[l].rows[k]  e == tables[l].val[g]  o == Obs.tables[l][k] IN
-         /\ Chk("group_key_order", o.key = g)
-         /\ Chk("group_counted", o.counted = e.counted)
-         /\ Chk("group_reporting", o.reporting = e.reporting)
-         /\ (Est # "bootstrap" =>
-               /\ Chk("group_pred", o.pred = e.pred)
-               /\ (Est = "nonparametric" => \A a \in 1..NAlpha :
-                     Chk("group_lower", o.lower[a] = e.lower[a]) /\ Chk("group_upper", o.upper[a] = e.upper[a])))
-         /\ (Est = "bootstrap" =>
-               /\ Chk("group_turnout", Abs(o.pt - e.ptsum) <= e.nmemb + 1)
-               /\ Chk("group_margin", Abs(o.pm - e.pmsum) <= e.nmemb + 1))
+    /\ \A g \in DOMAIN tables[l].val :
+         /\ Chk("group_present", HasRowD(l, g))
+         /\ HasRowD(l, g) =>
+              LET e == tables[l].val[g]  o == RowForD(l, g) IN
+              /\ Chk("group_counted", o.counted = e.counted)
+              /\ Chk("group_reporting", o.reporting = e.reporting)
+              /\ (Est # "bootstrap" =>
+                    /\ Chk("group_pred", o.pred = e.pred)
+                    /\ (Est = "nonparametric" => \A a \in 1..NAlpha :
+                          Chk("group_lower", o.lower[a] = e.lower[a]) /\ Chk("group_upper", o.upper[a] = e.upper[a])))
+              /\ (Est = "bootstrap" =>
+                    /\ Chk("group_turnout", Abs(o.pt - e.ptsum) <= e.nmemb + 1)
+                    /\ Chk("group_margin", Abs(o.pm - e.pmsum) <= e.nmemb + 1))
 
 \* the specification's own Delta (holds by model checking; evaluated here on the recorded scenario as well)
 TDeltaUnits  == Chk("delta_units", DeltaUnits)
